@@ -722,6 +722,20 @@ def snapshot_module_state():
     _MODULE_STATE.clear()
     _BINDINGS.clear()
     _CACHED_FUNCS.clear()
+    _INSTANCES.clear()
+    import copy
+
+    def consider_instance(obj, where):
+        # an object of a codelimit class that lives as long as the process: its attributes are state too
+        t = type(obj)
+        if (getattr(t, "__module__", "") or "").startswith("codelimit") and hasattr(obj, "__dict__") \
+                and not inspect.isclass(obj) and id(obj) not in seen:
+            try:
+                snap = copy.deepcopy(obj.__dict__)
+            except Exception:  # noqa: BLE001
+                return
+            seen.add(id(obj))
+            _INSTANCES.append((obj, snap, where))
     seen = REAL["set"]()
 
     def consider(obj, where, owner=None, attr=None):
@@ -734,6 +748,7 @@ def snapshot_module_state():
         # mutable default arguments live as long as the process does
         for d in (fn.__defaults__ or ()) + tuple((fn.__kwdefaults__ or {}).values()):
             consider(d, where + "(default argument)")
+            consider_instance(d, where + "(default argument)")
 
     for name, mod in sorted(sys.modules.items()):
         if mod is None or not (name == "codelimit" or name.startswith("codelimit.")):
@@ -742,6 +757,7 @@ def snapshot_module_state():
             if attr.startswith("__") or attr == "set":
                 continue
             consider(val, "%s.%s" % (name, attr), mod, attr)
+            consider_instance(val, "%s.%s" % (name, attr))
             if callable(getattr(val, "cache_clear", None)) and getattr(val, "__module__", "").startswith("codelimit"):
                 _CACHED_FUNCS.append(val)
             if inspect.isfunction(val) and getattr(val, "__module__", None) == name:
@@ -755,9 +771,11 @@ def snapshot_module_state():
                         consider_defaults(f, "%s.%s.%s" % (name, attr, cattr))
                     if not cattr.startswith("__") and not (cattr.startswith("_") and cattr.endswith("_")):
                         consider(cval, "%s.%s.%s" % (name, attr, cattr), val, cattr)
+                        consider_instance(cval, "%s.%s.%s" % (name, attr, cattr))
     return len(_MODULE_STATE)
 
 
+_INSTANCES = []         # (object, deep copy of its __dict__, where): module-level singletons and default-argument objects
 _CACHED_FUNCS = []      # functools caches (lru_cache / cache) on codelimit functions: process-lifetime state too
 
 
@@ -766,6 +784,17 @@ def restore_module_state():
     for f in _CACHED_FUNCS:
         try:
             f.cache_clear()
+        except Exception:  # noqa: BLE001
+            pass
+    import copy
+    for obj, snap, where in _INSTANCES:
+        try:
+            if obj.__dict__ != snap:
+                CTX.counters["module_instance_restored"] += 1
+                if len(CTX.module_state_dirty) < 16:
+                    CTX.module_state_dirty.add(where)
+            obj.__dict__.clear()
+            obj.__dict__.update(copy.deepcopy(snap))
         except Exception:  # noqa: BLE001
             pass
     for obj, snap, where in _MODULE_STATE:
